@@ -68,7 +68,7 @@ def gen_ns(ctx, num, depth):
 def namespaces(ctx, binary):
     """Bindings with a static namespace list and namespace.labelSelector: spec/Snapshot/SnapshotNs.tla."""
     q = ctx.quick()
-    big = None if q else {"DynNs": '{"n1", "n2", "n3"}', "Vals": '{"v1"}'}
+    big = None if q else {"DynNs": '{"n1", "n2", "n3"}', "Vals": '{"v1"}', "MaxNsOps": "4"}
     r = vlib.tlc(ctx, SPEC, "SnapshotNs", "MCNs.cfg", timeout=3000, expect_violation=False, workers=12, consts=big)
     ctx.log("TLC SnapshotNs/MCNs (label-selected namespaces, reference): %d generated / %d distinct states, %.0fs" % (r["generated"], r["distinct"], r["wall_s"]))
     vlib.tlc(ctx, SPEC, "SnapshotNs", "MCNs_asis.cfg", timeout=300, expect_violation="KnownFollowsLabel", workers=4)
@@ -143,6 +143,9 @@ def check_c02(ctx):
                 ctx.notes.append("DIVERGENCE %s: %s" % (o["sig"], o["detail"][:300]))
     ctx.log("snapshot keys: %d topologies (exhaustive) through the real loader + HookController.UpdateSnapshots" % len(topos))
     nns = namespaces(ctx, binary)
+    # bindings that watch the same objects share one client-go informer (FactoryStore): spec/SharedInformers
+    import shared
+    nns += shared.run(ctx, ("C02/",))
     ctx.cov["topologies"] = len(topos)
     ctx.cov["traces_validated_against_impl"] = len(cases) + len(topos) + nns
     ctx.cov["evaluations"] = len(cases) + len(topos) + nns
@@ -161,9 +164,13 @@ MANIFEST = {
         text="spec/Snapshot (preload list, informer start, watch events, restart) is checked exhaustively by TLC for QuietConverges; TLC histories are "
              "executed through the public KubeEventsManager API on the fake cluster and at every quiet point Monitor.Snapshot() is compared with the cluster "
              "(set equality, each object once, order by namespace/name, filter result attached). Snapshot reads concurrent with changes are covered at "
-             "informer level by the C01 replay (cache comparison after every step); keys of `snapshots` by the C09/C10 checks.",
-        note="Static namespace lists (one informer per namespace); 2 namespaces x 2 names x 2 values, <= 8 mutations, <= 2 restarts per history. "
-             "namespace.labelSelector bindings are not exercised (fake cluster limitation).",
+             "informer level by the C01 replay (cache comparison after every step). spec/Snapshot/SnapshotNs.tla covers namespace.labelSelector bindings "
+             "(namespaces start/stop matching, are deleted with their objects and come back, around AddMonitor/StartMonitor/Restart) and is replayed on "
+             "the real monitor; spec/Snapshot/SnapKeys.tla enumerates all 512 includeSnapshotsFrom/group topologies for the keys of `snapshots`, "
+             "executed through the real loader and HookController.UpdateSnapshots, with a within-execution consistency probe.",
+        note="Static namespace lists: 2 namespaces x 2 names x 2 values, <= 8 mutations, <= 2 restarts per history. Label-selected namespaces: 3 "
+             "namespaces, <= 5 namespace operations; a started monitor learns of a namespace through the namespace informer's own callbacks (the "
+             "fake cluster does not honour label selectors on watches). namespace.nameSelector is ignored by the code when labelSelector is given.",
         technique="TLA+ spec + TLC exhaustive check; replay of TLC histories through the public API on a fake cluster",
         design="5/C02"),
 }
